@@ -32,6 +32,10 @@ CHECKS = {
    text='The domain is finite and is enumerated completely in both tiers: every syntax note of every segment node of every indexed map x every segment length 0..max+1 x every presence pattern of the mentioned positions (35k cases), plus, for segments with several notes, every pattern over the union of their positions (140k cases). is_syntax_valid must equal the X12 definition; segment validation must surface exactly one element error per violated note with code 10 (E) or 2, none for a satisfied one.',
    design_ref='3/C14', technique='exhaustive enumeration of the finite (map node, note, pattern, length) space against an independent evaluator of the X12 condition designators',
    note='Trusted: parse_note()/violated() in vpx/props/c14.py; own XML read of the maps (vpx/mapmodel.py). Present elements carry the value "X"; a map that pyx12 cannot load (841) is skipped here and reported by C16.'),
+ 'C16': dict(
+   text='Complete enumeration of the shipped configuration: every index entry and every loop/segment/element/composite/component node of every indexed map and both control maps (129k predicate evaluations) against predicates from the statement: loads; references resolve; usage/repeat/position/syntax-note well-formedness; sibling distinguishability; index-key uniqueness and lookup; path uniqueness; re-fetch by own path through both lookups; loaded tree mirrors the XML; map-directory copy loads to an equal tree. Node-level known findings (37, data defects that need the X12 dictionary or the implementation guides) are listed one by one in known_findings.json.',
+   design_ref='3/C16', technique='exhaustive enumeration of the finite configuration against independent predicates (own XML reader as reference)',
+   note='Trusted: vpx/mapmodel.py (own ElementTree reader of maps.xml, map files, dataele.xml, codes.xml). The check is exhaustive over the files present in /repo/pyx12/map at run time.'),
 }
 for pid in CHECKS:
     ENGINES[0]['serves_properties'].append(pid)
